@@ -169,6 +169,7 @@ type Clause struct {
 	Label string
 	Props []string
 	Group string // proof group: obligations of a group see only ungrouped facts and facts of their own group
+	Local bool   // `ensures_here`: proved at the function's exit like an ensures clause, but it speaks about the function's own variables, so callers do not get it
 	Expr  Expr
 	Raw   string
 	Pos   Position
